@@ -215,6 +215,26 @@ CLAIMS = {
   technique="Lean 4 theorem proving (induction over histories) + regenerated static-storage table + instrumented "
             "differential runs (argument deep-compare, static-region fingerprints, ThreadSanitizer)",
   design="§6 C17"),
+ "C14": dict(
+  text="Machine-checked proof on the model of the PBES2 hooks, jose_jwe_dec_cek and the KEYMAX guards, for every instance of "
+       "the primitives: on unwrap a p2c that is not a JSON integer, is above 32768 or below 1 is refused before (and "
+       "independently of) any key derivation; whenever unwrapping succeeds the one derivation performed used the header's "
+       "own count with 1 <= count <= 32768, a salt of 8..1024 bytes and a password of at most 1024 bytes; on wrap the count "
+       "used and recorded is the header's 64-bit integer (default: the maximum) within 1000..32768, every other value "
+       "refused (no 32-bit narrowing: concrete wrap-around values proved refused); one-shot decryption refuses a JWE with zip "
+       "in the protected header and more than 262144 characters of ciphertext before decrypting or inflating, and the guard "
+       "plays no role otherwise; HMAC keys, apu/apv, exchanged coordinates, wrapped keys are bounded by KEYMAX, content and "
+       "wrapping keys have exactly the algorithm's length. Constants are regenerated from the headers each run. Boundary "
+       "grids (p2c x 22 values + non-integers x wrap/unwrap x 3 algorithms x header placement, p2s 0..40/1022..1026/2048/"
+       "65536, ciphertext 262140..262148 characters x zip placement, inflate feeds around 256 KiB, 1023..65536-byte members) "
+       "run on the implementation and the model under a per-operation watchdog.",
+  note="Trusted: Lean kernel, standard axioms; 'promptly' is measured (20 s watchdog under ASan), not proved; the per-feed "
+       "limit of the inflate stage is validated by the grid (the stage is modelled at verdict level). Found and fixed by "
+       "this check: F9 (wrap read p2c through a 32-bit int) and F17 (unwrap: negative p2c narrowed to up to 2^31-1 "
+       "iterations: unbounded work).",
+  technique="Lean 4 theorem proving (guards precede primitives, for all primitive instances) + boundary-grid differential "
+            "with watchdog",
+  design="§6 C14"),
 }
 
 NOT_YET = "check not built yet (framework under construction); will be claimed when its Lean theorems and correspondence exist"
